@@ -115,7 +115,7 @@ class SArr:
 
     __add__ = __radd__ = __sub__ = __rsub__ = __mul__ = __rmul__ = lambda s, o: s._bin(o)
     __truediv__ = __rtruediv__ = lambda s, o: s._bin(o, promote("real", s.kind, kind_of(o)))
-    __pow__ = __rpow__ = lambda s, o: s._bin(o)
+    __pow__ = __rpow__ = __mod__ = __rmod__ = __floordiv__ = __rfloordiv__ = lambda s, o: s._bin(o)
     __neg__ = lambda s: SArr(s.shape, s.kind)
     __eq__ = __ne__ = __lt__ = __le__ = __gt__ = __ge__ = lambda s, o: s._bin(o, "bool")
     __and__ = __rand__ = __or__ = __ror__ = __xor__ = __rxor__ = lambda s, o: s._bin(o, "bool" if s.kind == "bool" and kind_of(o) == "bool" else None)   # element-wise & | ^
